@@ -293,11 +293,15 @@ func generate(cfg *hx.Config) []hx.Case {
 	if cfg.Thorough() {
 		n = 3000
 	}
-	modes := []string{"seq", "seq", "pipe", "byte"}
+	modes := []string{"seq", "seq", "pipe", "byte", "part", "part"}
 	for k := 0; k < n; k++ {
 		r := rng.Fork()
 		mode := modes[r.Intn(len(modes))]
 		ne := r.Range(1, 6)
+		if mode == "part" {
+			mode = fmt.Sprintf("part%d", r.Intn(1<<30))
+			ne = r.Range(2, 6)
+		}
 		// where the first close signal may appear: usually at the end, sometimes earlier, sometimes never
 		closeAt := ne - 1
 		switch r.Intn(6) {
@@ -305,6 +309,9 @@ func generate(cfg *hx.Config) []hx.Case {
 			closeAt = r.Intn(ne)
 		case 1, 2:
 			closeAt = -1
+		}
+		if strings.HasPrefix(mode, "part") && closeAt >= 0 {
+			closeAt = ne - 1 // partial bytes of a request behind a closing exchange are simply lost
 		}
 		var exs []*exch
 		for i := 0; i < ne; i++ {
@@ -328,7 +335,7 @@ func generate(cfg *hx.Config) []hx.Case {
 			exs = append(exs, e)
 		}
 		cases = append(cases, caseOf(fmt.Sprintf("g%d", k), mode, exs))
-		cfg.Count("mode=" + mode)
+		cfg.Count("mode=" + strings.TrimRight(mode, "0123456789"))
 		cfg.Count(fmt.Sprintf("exchanges=%d", ne))
 		for _, e := range exs {
 			cfg.Count("method=" + e.Method)
@@ -349,6 +356,29 @@ func generate(cfg *hx.Config) []hx.Case {
 				cfg.Count("target=origin-form")
 			}
 		}
+	}
+	// connection lifetime: the connection lives longer than the proxy's
+	// timeout although every pause is far below it
+	nl := 6
+	if cfg.Thorough() {
+		nl = 30
+	}
+	for k := 0; k < nl; k++ {
+		r := rng.Fork()
+		ne := r.Range(6, 7)
+		var exs []*exch
+		for i := 0; i < ne; i++ {
+			e := genExchange(r, genOpt{}, false)
+			if e.BLen > 20000 {
+				e.BLen = 20000
+			}
+			if e.SBLen > 20000 {
+				e.SBLen = 20000
+			}
+			exs = append(exs, e)
+		}
+		cases = append(cases, caseOf(fmt.Sprintf("life%d", k), "life.1500.400", exs))
+		cfg.Count("mode=life")
 	}
 	// every (response framing x next response framing x mode) pair, small bodies
 	if cfg.Thorough() {
@@ -487,5 +517,14 @@ func corpus() []hx.Case {
 	q := get("?only=query", ae, 200, nil, 2, "c")
 	q.Abs = true
 	add("absolute-form-host-mismatch-empty-path", "seq", abs, q)
+
+	// partial pipelining: part of request i+1 arrives together with request i
+	for _, sd := range []string{"part1", "part2", "part3", "part4", "part5", "part6"} {
+		add("partial-next-request-"+sd, sd, post(100, "c"), post(5000, "k9"), get("/g", ae, 200, nil, 10, "c"), post(3, "c"), get("/h", ae, 200, nil, 4097, "k7"))
+	}
+	// connection older than the proxy timeout, every pause far below it
+	add("lifetime-exceeds-proxy-timeout", "life.1500.400",
+		get("/1", ae, 200, nil, 10, "c"), get("/2", ae, 200, nil, 10, "k3"), post(10, "c"), get("/4", ae, 204, nil, 0, "n"),
+		get("/5", ae, 200, nil, 10, "c"), get("/6", ae, 200, nil, 10, "c"), get("/7", ae, 200, nil, 10, "c"))
 	return cs
 }
